@@ -10,7 +10,7 @@ checks, na = [], []
 NARROW = {"C03", "C04", "C06", "C11", "C15", "C19", "C20"}
 for p in sorted(PROPS):
     spec = PROPS[p]
-    rules = [r for r in spec["rules"] if r in RULES]
+    rules = [r for r in spec["rules"] if r.split(":")[0] in RULES]
     if not rules:
         na.append({"property_id": p, "reason": "no rule of this family is built for it yet: " + ", ".join(spec["rules"])})
         continue
